@@ -64,15 +64,24 @@ class TlcResult:
         return "\n".join(lines[:12])
 
     def printed(self):
-        """Values printed with PrintT, parsed from TLC's textual syntax, one per line."""
+        """Values printed with PrintT (tuples), parsed from TLC's textual syntax.  TLC wraps long values over
+        several lines, so lines are joined until the << >> brackets balance."""
         from . import tlaval
         vals = []
+        buf, depth = None, 0
         for line in self.out.splitlines():
-            if line.startswith("<<") and line.rstrip().endswith(">>"):
+            if buf is None:
+                if not line.startswith("<<"):
+                    continue
+                buf, depth = "", 0
+            buf += line + " "
+            depth += line.count("<<") - line.count(">>")
+            if depth <= 0:
                 try:
-                    vals.append(tlaval.parse(line))
+                    vals.append(tlaval.parse(buf))
                 except Exception:
                     pass
+                buf = None
         return vals
 
     def coverage(self):
